@@ -122,7 +122,7 @@ func checkReads(c cont, want []int, wantN int, hows []int) *mismatch {
 		for i, w := range want {
 			g := c.read(i, how)
 			wv, wd := w, false
-			if w >= 5 { // value + 10: the element carries a non-zero derivative
+			if w >= tag/2 { // value + Tag: the element carries a non-zero derivative
 				wv, wd = w-tag, true
 			}
 			if g != float64(wv) {
